@@ -413,13 +413,16 @@ package composite
 // to the composer never share a patch list with the revision's patch sets (or, through them,
 // with each other) - an append into such a shared list would rewrite another template's patches.
 //@ func composite.ComposedTemplates
-//@ props C10
+//@ props C10 C05 C09
 //@ sweep
 //@ loop range cts
 //@   invariant [C10:templates-built-so-far-own-their-patch-lists] forall j :: 0 <= j && j < done ==> callerfresh(ct[j].Patches)
+//@   invariant [C10,C05,C09:templates-built-so-far-keep-everything-but-their-patches] len(ct) == len(cts) && forall j :: 0 <= j && j < done ==> (ct[j].Name == cts[j].Name && ct[j].Base == cts[j].Base && ct[j].ReadinessChecks == cts[j].ReadinessChecks && ct[j].ConnectionDetails == cts[j].ConnectionDetails)
 //@ loop range r.Patches
 //@   invariant [C10:patch-list-under-construction-is-this-calls-own] callerfresh(po)
 //@   invariant [C10:templates-built-so-far-still-own-their-patch-lists] forall j :: 0 <= j && j < i ==> callerfresh(ct[j].Patches)
+//@   invariant [C10,C05,C09:templates-built-so-far-still-keep-everything-but-their-patches] len(ct) == len(cts) && forall j :: 0 <= j && j < i ==> (ct[j].Name == cts[j].Name && ct[j].Base == cts[j].Base && ct[j].ReadinessChecks == cts[j].ReadinessChecks && ct[j].ConnectionDetails == cts[j].ConnectionDetails)
+//@ ensures [C10,C05,C09:templates-keep-their-readiness-checks-connection-details-base-and-name] err == nil ==> (len(result) == len(cts) && forall j :: 0 <= j && j < len(result) ==> (result[j].Name == cts[j].Name && result[j].Base == cts[j].Base && result[j].ReadinessChecks == cts[j].ReadinessChecks && result[j].ConnectionDetails == cts[j].ConnectionDetails))
 //@ ensures [C10:no-template-shares-its-patch-list-with-a-patch-set] err == nil ==> forall j :: 0 <= j && j < len(result) ==> callerfresh(result[j].Patches)
 
 //@ func composite.RenderFromJSON
@@ -470,6 +473,7 @@ package composite
 //@ sweep
 //@ ensures [C01:rendering-metadata-keeps-the-resources-name] cd.GetName() == old(cd.GetName()) && cd.GetNamespace() == old(cd.GetNamespace())
 //@ ensures [C01,C03:rendered-resource-carries-the-resource-name-it-was-rendered-for] err == nil && n != "" ==> cd.GetAnnotations()[AnnotationKeyCompositionResourceName] == n
+//@ ensures [C10,C01:a-composite-without-its-name-prefix-label-fails-rendering] old(xr.GetLabels()[xcrd.LabelKeyNamePrefixForComposed]) == "" ==> err != nil
 //@ ensures [C01:rendered-resource-carries-the-composites-labels] err == nil ==> cd.GetLabels()[xcrd.LabelKeyNamePrefixForComposed] == xr.GetLabels()[xcrd.LabelKeyNamePrefixForComposed] && cd.GetLabels()[xcrd.LabelKeyClaimName] == xr.GetLabels()[xcrd.LabelKeyClaimName] && cd.GetLabels()[xcrd.LabelKeyClaimNamespace] == xr.GetLabels()[xcrd.LabelKeyClaimNamespace]
 
 
